@@ -7,29 +7,76 @@ import NV.C09.Total
 
 namespace NV.C09
 
+theorem cycle_shutdown_id (S : Scripts) (rh : HookFn) (n : Nat) (a : List Action) (w : W) (hs : w.shutdown = true) :
+    cycle S rh n a w = (w, false) := by unfold cycle; simp [hs]
+
 theorem runScripted_gt (S : Scripts) (rh : HookFn) (hrh : HookOK rh) :
-    ∀ (h : List (List Action)) (n : Nat) (w : W) (last : Bool), Good w → GT w (runScripted S rh n h w last).1 := by
+    ∀ (h : List (List Action)) (n : Nat) (w : W) (last : Bool), Good w →
+      ∃ m, GTC w (runScripted S rh n h w last).1 (List.range' n m) ∧
+        (runScripted S rh n h w last).2.1 = n + h.length ∧
+        ((runScripted S rh n h w last).1.shutdown = true ∨ m = h.length) := by
   intro h
   induction h with
-  | nil => intro n w last g; exact GT.refl g
+  | nil => intro n w last g; exact ⟨0, (GT.refl g).toC, rfl, Or.inr rfl⟩
   | cons a as ih =>
     intro n w last g
     have g1 := cycle_good S rh hrh n a w g
-    exact g1.trans (ih (n + 1) _ _ g1.1)
+    obtain ⟨m, g2, hn, hm⟩ := ih (n + 1) (cycle S rh n a w).1 (cycle S rh n a w).2 g1.1
+    have hn' : (runScripted S rh n (a :: as) w last).2.1 = n + (a :: as).length := by
+      show (runScripted S rh (n + 1) as (cycle S rh n a w).1 (cycle S rh n a w).2).2.1 = _
+      rw [hn]; simp; omega
+    by_cases hs : w.shutdown = true
+    · have hstay : ∀ (as : List (List Action)) (k : Nat) (b : Bool), (runScripted S rh k as w b).1 = w := by
+        intro as
+        induction as with
+        | nil => intro k b; rfl
+        | cons x xs ihx =>
+          intro k b
+          show (runScripted S rh (k + 1) xs (cycle S rh k x w).1 (cycle S rh k x w).2).1 = w
+          rw [cycle_shutdown_id S rh k x w hs]; exact ihx (k + 1) false
+      refine ⟨0, ?_, hn', Or.inl ?_⟩
+      · show GTC w (runScripted S rh (n + 1) as (cycle S rh n a w).1 (cycle S rh n a w).2).1 _
+        rw [cycle_shutdown_id S rh n a w hs, hstay]
+        exact (GT.refl g).toC
+      · show (runScripted S rh (n + 1) as (cycle S rh n a w).1 (cycle S rh n a w).2).1.shutdown = true
+        rw [cycle_shutdown_id S rh n a w hs, hstay]; exact hs
+    · simp only [hs] at g1
+      refine ⟨m + 1, ?_, hn', ?_⟩
+      · have := g1.trans g2
+        have e : (if false = true then [] else [n]) ++ List.range' (n + 1) m = List.range' n (m + 1) := by
+          simp [List.range'_succ]
+        rw [e] at this
+        exact this
+      · rcases hm with h1 | h1
+        · exact Or.inl h1
+        · exact Or.inr (by simp [h1])
 
 theorem trailing_gt (S : Scripts) (rh : HookFn) (hrh : HookOK rh) :
-    ∀ (f n trail : Nat) (w : W), Good w → GT w (trailing S rh f n trail w) := by
+    ∀ (f n trail : Nat) (w : W), Good w →
+      ∃ m, GTC w (trailing S rh f n trail w) (List.range' n m) ∧ (w.shutdown = true → m = 0) := by
   intro f
   induction f with
-  | zero => intro n trail w g; exact GT.refl g
+  | zero => intro n trail w g; exact ⟨0, (GT.refl g).toC, fun _ => rfl⟩
   | succ f ih =>
     intro n trail w g
     unfold trailing
     split
-    · exact GT.refl g
-    · simp only []
+    · exact ⟨0, (GT.refl g).toC, fun _ => rfl⟩
+    · rename_i hcond
+      simp only []
+      have hs : w.shutdown = false := by
+        cases h : w.shutdown with
+        | false => rfl
+        | true => simp [h] at hcond
       have g1 := cycle_good S rh hrh n [] w g
-      exact g1.trans (ih _ _ _ g1.1)
+      simp only [hs] at g1
+      obtain ⟨m, g2, _⟩ := ih (n + 1) (if (cycle S rh n [] w).2 = true then trail + 1 else trail) _ g1.1
+      refine ⟨m + 1, ?_, fun h => by rw [hs] at h; simp at h⟩
+      have := g1.trans g2
+      have e : (if false = true then [] else [n]) ++ List.range' (n + 1) m = List.range' n (m + 1) := by
+        simp [List.range'_succ]
+      rw [e] at this
+      exact this
 
 theorem foldl_out_trace (f : Nat × String → Ev) (hf : ∀ e, quiet (f e) = true) :
     ∀ (l : List (Nat × String)) (w : W),
@@ -54,25 +101,29 @@ theorem finish_trace (w : W) : ∃ es, (finish w).trace = es ++ (exitEv w :: w.t
   simp only []
   obtain ⟨es, he, hq⟩ := foldl_out_trace outEv (fun _ => rfl)
     (((allOuts w).filter (fun e => e.1 ≠ 0)).foldr insertByKey []) (finishHead w)
-  have hh : (finishHead w).trace = [Ev.slots (liveOuts w).length, Ev.hbs (sortStrings (w.hbs.map Oid.name))] ++
+  have hh : (finishHead w).trace = [Ev.slotIdx (occupiedIdx (slots w) 0), Ev.slots (liveOuts w).length, Ev.refs w.masterRef 0, Ev.hbs (sortStrings (w.hbs.map Oid.name))] ++
       (exitEv w :: w.trace) := rfl
   split
-  · refine ⟨consoleOutEv w :: (es ++ [Ev.slots (liveOuts w).length, Ev.hbs (sortStrings (w.hbs.map Oid.name))]), ?_, ?_⟩
+  · refine ⟨consoleOutEv w :: (es ++ [Ev.slotIdx (occupiedIdx (slots w) 0), Ev.slots (liveOuts w).length, Ev.refs w.masterRef 0, Ev.hbs (sortStrings (w.hbs.map Oid.name))]), ?_, ?_⟩
     · show consoleOutEv w :: _ = _
       rw [he, hh]; simp
     · intro e he'
       simp only [List.mem_cons, List.mem_append, List.mem_nil_iff, or_false] at he'
-      rcases he' with h | h | h | h
+      rcases he' with h | h | h | h | h | h
       · rw [h]; rfl
       · exact hq e h
       · rw [h]; rfl
       · rw [h]; rfl
-  · refine ⟨es ++ [Ev.slots (liveOuts w).length, Ev.hbs (sortStrings (w.hbs.map Oid.name))], ?_, ?_⟩
+      · rw [h]; rfl
+      · rw [h]; rfl
+  · refine ⟨es ++ [Ev.slotIdx (occupiedIdx (slots w) 0), Ev.slots (liveOuts w).length, Ev.refs w.masterRef 0, Ev.hbs (sortStrings (w.hbs.map Oid.name))], ?_, ?_⟩
     · rw [he, hh]; simp
     · intro e he'
       simp only [List.mem_cons, List.mem_append, List.mem_nil_iff, or_false] at he'
-      rcases he' with h | h | h
+      rcases he' with h | h | h | h | h
       · exact hq e h
+      · rw [h]; rfl
+      · rw [h]; rfl
       · rw [h]; rfl
       · rw [h]; rfl
 
@@ -84,16 +135,40 @@ theorem finish_trext (w : W) : TrExt w (finish w) := by
   · exact hq e h
   · simp at h; rw [h]; exact quiet_exitEv w
 
-/-- the whole run of the harness: good at the end, trace = one well-formed block on top of the initial trace -/
-theorem runFull_trext (S : Scripts) (w0 : W) (h : List (List Action)) (f : Fresh w0) :
-    TrExt w0 (runFull S w0 h) := by
+/-- the whole run of the harness: the trace is one block (well-formed up to cycle markers) on top of the initial
+    trace, and its cycle markers are exactly 1, 2, ..., m -/
+theorem runFull_block (S : Scripts) (w0 : W) (h : List (List Action)) (f : Fresh w0) :
+    ∃ es m, (runFull S w0 h).trace = es ++ w0.trace ∧ BlockC es ∧ markers es = List.range' 1 m := by
   unfold runFull
   simp only []
   have hrh := runHook_ok S hookFuel
   have g0 := startup_good S _ hrh w0 f
-  have g1 := g0.trans (runScripted_gt S _ hrh h 1 _ false g0.1)
-  refine TrExt.trans ?_ (finish_trext _)
-  exact (g1.trans (trailing_gt S _ hrh 256 _ _ _ g1.1)).2
+  obtain ⟨m1, g1, hn, hm⟩ := runScripted_gt S _ hrh h 1 _ false g0.1
+  obtain ⟨m2, g2, hz⟩ := trailing_gt S _ hrh 256
+    (runScripted S (runHook S hookFuel) 1 h (startup S (runHook S hookFuel) w0) false).2.1
+    (if (runScripted S (runHook S hookFuel) 1 h (startup S (runHook S hookFuel) w0) false).2.2 = true then 1 else 0)
+    _ g1.1
+  have g3 := (g0.toC.trans g1).trans g2
+  obtain ⟨_, es, he, hb, hk⟩ := g3
+  obtain ⟨fs, hf, hfb⟩ := finish_trext (trailing S (runHook S hookFuel) 256
+    (runScripted S (runHook S hookFuel) 1 h (startup S (runHook S hookFuel) w0) false).2.1
+    (if (runScripted S (runHook S hookFuel) 1 h (startup S (runHook S hookFuel) w0) false).2.2 = true then 1 else 0)
+    (runScripted S (runHook S hookFuel) 1 h (startup S (runHook S hookFuel) w0) false).1)
+  refine ⟨fs ++ es, m1 + m2, by rw [hf, he, List.append_assoc], hb.append hfb.toC, ?_⟩
+  rw [markers_append, markers_noCycle fs hfb.noCycle, List.append_nil, hk, hn]
+  simp only [List.nil_append]
+  rcases hm with h1 | h1
+  · have : m2 = 0 := hz h1
+    rw [this]; simp
+  · rw [h1]
+    have := List.range'_append (s := 1) (m := h.length) (n := m2) (step := 1)
+    simp only [Nat.one_mul] at this
+    exact this
+
+theorem runFull_trext (S : Scripts) (w0 : W) (h : List (List Action)) (f : Fresh w0) :
+    ∃ es, (runFull S w0 h).trace = es ++ w0.trace ∧ BlockC es := by
+  obtain ⟨es, _, he, hb, _⟩ := runFull_block S w0 h f
+  exact ⟨es, he, hb⟩
 
 /-- events of the full run in chronological order (what `nvdrive C09 model` prints) -/
 def events (S : Scripts) (w0 : W) (h : List (List Action)) : List Ev := (runFull S w0 h).trace.reverse
@@ -121,6 +196,38 @@ theorem judge_report_clause (S : Scripts) (w0 : W) (h : List (List Action)) (f :
     unfold events
     rw [he, ht, List.append_nil]; exact hb.report
   unfold clauseReport
+  simp [this]
+
+theorem cyclesOk_of_markers : ∀ (es : List Ev) (n m : Nat),
+    es.filterMap (fun e => match e with | .cycle k => some k | _ => none) = List.range' n m →
+    cyclesOk n es = true := by
+  intro es
+  induction es with
+  | nil => intro n m _; rfl
+  | cons e rest ih =>
+    intro n m h
+    cases e with
+    | cycle k =>
+      simp only [List.filterMap_cons] at h
+      cases m with
+      | zero => simp at h
+      | succ m' =>
+        rw [List.range'_succ] at h
+        injection h with h1 h2
+        simp only [cyclesOk, h1, beq_self_eq_true, Bool.true_and]
+        exact ih (n + 1) m' h2
+    | _ => all_goals (simp only [List.filterMap_cons] at h; simp only [cyclesOk]; exact ih n m h)
+
+/-- **clause `liveness` (cycle markers), all histories, all oracles:** the loop iterations are numbered 1, 2, 3, ...
+    without a gap: after every task failure, disconnect or destruct the loop is entered again -/
+theorem judge_cycles_clause (S : Scripts) (w0 : W) (h : List (List Action)) (f : Fresh w0) (ht : w0.trace = []) :
+    clauseCycles (events S w0 h) = [] := by
+  obtain ⟨es, m, he, _, hk⟩ := runFull_block S w0 h f
+  have : cyclesOk 1 (events S w0 h) = true := by
+    unfold events
+    rw [he, ht, List.append_nil]
+    exact cyclesOk_of_markers _ 1 m hk
+  unfold clauseCycles
   simp [this]
 
 /-- the loop is always left in an orderly way: the trace has its exit line (never `liveness no-exit`) -/
@@ -152,5 +259,80 @@ theorem judge_exit_present (S : Scripts) (w0 : W) (h : List (List Action)) :
         (runScripted S (runHook S hookFuel) 1 h (startup S (runHook S hookFuel) w0) false).1)).trace.reverse
     · simp [h2]
     · simp [h2, h1]
+
+
+/-! ## the full statement and its settling assumption -/
+
+/-- what the oracle is told about a history (the driver `Drive.lean` computes the same from the case lines) -/
+def noteAct (x : Expect) : Action → Expect
+  | .conn c => { x with conns := x.conns ++ [c] }
+  | .send c t => { x with sends := x.sends ++ [(c, t)] }
+  | .cin t => { x with sends := x.sends ++ [(0, t)] }
+  | .close c => { x with closed := c :: x.closed }
+  | _ => x
+
+def isTickAct : Action → Bool
+  | .tick _ => true
+  | _ => false
+
+def expectOf (console : Bool) (h : List (List Action)) : Expect :=
+  let x := (h.flatten).foldl noteAct { console := console }
+  let idx := (List.range h.length).filter (fun i => (h.getD i []).any isTickAct)
+  { x with coCutoff := match idx.reverse with | _ :: b :: _ => b + 1 | _ => 0 }
+
+def isIdleStep (s : List Action) : Bool := s.all (fun a => match a with | .idle => true | _ => false)
+
+/-- complete lines in a packet -/
+def lineCount (t : String) : Nat := (t.toList.filter (· == '/')).length
+
+/-- the longest backlog a client can have built up -/
+def maxBacklog (h : List (List Action)) : Nat :=
+  let sends := (h.flatten).filterMap (fun a => match a with
+    | .send c t => some (c, lineCount t) | .cin t => some (0, lineCount t) | _ => none)
+  (sends.map (fun e => ((sends.filter (fun f => f.1 == e.1)).map (·.2)).sum)).foldl max 0
+
+/-- well-formed history: network clients are numbered from 1 (0 is the console), every client connects at most
+    once, nothing is sent to or closed on a client that never connected -/
+def WFHist (h : List (List Action)) : Bool :=
+  let acts := h.flatten
+  let conns := acts.filterMap (fun a => match a with | .conn c => some c | _ => none)
+  conns.all (· ≠ 0) && conns.eraseDups.length == conns.length &&
+  acts.all (fun a => match a with
+    | .send c _ => conns.contains c
+    | .close c => conns.contains c
+    | _ => true)
+
+/-- **the settling assumption, decidable:** the history ends as the generator's histories do - at least
+    `max 4 (longest backlog)` idle cycles (one buffered line is served per user and cycle), then two ticks of 40 s (every
+    call_out delay is shorter), then two idle cycles - so every buffered command and every call_out scheduled before
+    the closing ticks has had its turn when the loop is left -/
+def Settled (h : List (List Action)) : Bool :=
+  let n := h.length
+  let tail := h.drop (n - 4)
+  let before := (h.take (n - 4)).reverse
+  let idles := (before.takeWhile isIdleStep).length
+  let closing := match tail with
+    | [[.tick a], [.tick b], [.idle], [.idle]] => a == 40 && b == 40
+    | _ => false
+  decide (n ≥ 4) && closing && decide (idles ≥ max 4 (maxBacklog h))
+
+/-- FULL top statement (`model_satisfies_spec`).  PROVED so far, unconditionally (no `Settled`, no `WFHist`):
+    the clauses crash (`judge_crash_clause`), report (`judge_report_clause`), cycle markers (`judge_cycles_clause`)
+    and the presence of the exit line (`judge_exit_present`).  NOT yet proved: unexpected-shutdown, heartbeats,
+    commands, callouts, leak - they need ghost relations between the state and the trace (shutdown flag vs. the
+    destruct / rejected-connect events, heart-beat table vs. `hbExpected`, slots vs. `liveUsers`) and, for commands
+    and callouts, the fairness of the rotating cursor under `Settled`. -/
+def Model_satisfies_spec_Full : Prop :=
+  ∀ (S : Scripts) (w0 : W) (h : List (List Action)), Fresh w0 → w0.trace = [] → WFHist h = true → Settled h = true →
+    judgeEv (expectOf (w0.mode == .console) h) (events S w0 h) = []
+
+/-- non-vacuity of the settling assumption: a history with a backlog of three lines -/
+example : Settled [[.conn 1], [.send 1 "a/b/c/"], [.idle], [.idle], [.idle], [.idle],
+                   [.tick 40], [.tick 40], [.idle], [.idle]] = true ∧
+          WFHist [[.conn 1], [.send 1 "a/b/c/"], [.idle], [.idle], [.idle], [.idle],
+                   [.tick 40], [.tick 40], [.idle], [.idle]] = true := by decide
+
+/-- ... and it is a real restriction: without the closing ticks a history is not settled -/
+example : Settled [[.conn 1], [.send 1 "a/"], [.idle], [.idle], [.idle], [.idle]] = false := by decide
 
 end NV.C09
